@@ -72,6 +72,7 @@ Presence(c, x, isExt) == c.card # 3 /\ (isExt \/ c.ef.fp \/ c.t.msg # "" \/ x.on
 DefaultDefects(ctx, f, c, x, isExt) ==
   IF ~x.hd \/ c.t.st # "ok" THEN {}
   ELSE Tag(c.kind = KEnum /\ ~EnumDefault(f, c, x.def).found /\ ~(ctx.allow /\ IsIdent(x.def)), "default_enum")
+       \cup Tag(UnknownEnumKind(c) /\ ~IsIdent(x.def), "default_enum")     \* (only an enum value name can be taken on trust)
        \cup Tag(~Presence(c, x, isExt), "default_implicit")
        \cup Tag(c.kind \in {KMessage, KGroup} \/ c.card = 3, "default_composite")
 
